@@ -6,6 +6,8 @@ assignments; configuration product on the single-item sub-corpus.
 """
 from __future__ import annotations
 
+import re
+
 import json
 import warnings
 
@@ -21,7 +23,17 @@ CONFIGS = [
 o_extra = {}
 
 
+CONF_TYPE = {"scalars": {"Blob": {"type": "int"}}}
+CONF_PARSE = {"scalars": {"Blob": {"type": "int", "parse": ".blob_mod.parse_blob"}}, "files_to_include": ["@blob_mod.py"]}
+BLOB_MOD = "def parse_blob(value):\n    return int(value)\n"
+
+
 def op_case(o, options, tier, tracer="none"):
+    if "scalars" in options and "Blob" in options["scalars"]:
+        c = op_case(o, {k: v for k, v in options.items() if k not in ("scalars", "files_to_include")}, tier, tracer)
+        c["options"] = dict(c["options"], **options)
+        c.update(configured_scalars={"Blob": "int"}, scalar_values={"Blob": 5}, files={"blob_mod.py": BLOB_MOD})
+        return c
     if "family:fixture" in o.tags:
         x = o_extra[id(o)]
         return dict(schema=x["schema"], doc_text=o.doc_text, op_name=o.name, uses_var=False, auto_kwargs=True, arg_scalars=x["scal"], scalar_values=x["scal"] or None,
@@ -69,7 +81,8 @@ def build_cases(tier):
     wops = corpus.w_ops()
     cases = []
     k2 = corpus.k2_ops()
-    for o in single_ops + wops + pair_ops + k2:
+    k2m = corpus.k2_matrix()
+    for o in single_ops + wops + pair_ops + k2 + k2m:
         cases.append((o, {}, "none"))
     # configuration product on the single-feature sub-corpus (every grammar production once)
     step = 1 if tier != "quick" else 3
@@ -81,13 +94,19 @@ def build_cases(tier):
             cases.append((o, cfg, "none"))
             if cfg["opentelemetry_client"] and cfg["convert_to_snake_case"]:
                 cases.append((o, cfg, "noop"))
+    # configured custom scalar (pydantic-native type, and type + parse function) at every result position incl. nullable list items
+    for o in single_ops + wops:
+        if "blob" in o.text or "wkind:blb" in o.tags or "FCamel" in o.text:
+            cases.append((o, dict(CONF_TYPE), "none"))
+            cases.append((o, dict(CONF_PARSE), "none"))
     for fx, schema_text, queries, opn, options, scal in fixture_cases(tier):
         o = corpus.Op(opn, f"{fx}:{opn}", queries, {"family:fixture", f"fixture:{fx}", f"fixture_op:{fx}/{opn}"}, False, set(), "fixture")
         o_extra[id(o)] = dict(schema=schema_text, options=options, scal=scal)
         cases.append((o, {}, "none"))
-        if tier != "quick":
+        if tier != "quick" and not re.search(r"(?m)^\s*subscription\b", queries):
+            # the sync client legitimately refuses documents with subscriptions (NotSupported)
             cases.append((o, {"convert_to_snake_case": False, "async_client": False}, "none"))
-    return cases, {"fixture_ops": len(o_extra), "k2_ops": len(k2), "singles": len(single_ops), "wrapper_ops": len(wops), "pairs": len(pair_ops), "config_subcorpus": len(sub)}
+    return cases, {"fixture_ops": len(o_extra), "k2_ops": len(k2), "k2_matrix_ops": len(k2m), "singles": len(single_ops), "wrapper_ops": len(wops), "pairs": len(pair_ops), "config_subcorpus": len(sub)}
 
 
 def run(tier, rep, checks=("c01",), clause_prefix=""):
@@ -118,8 +137,10 @@ def run(tier, rep, checks=("c01",), clause_prefix=""):
                 if fxf:
                     feats = set(t for t in o.tags if t.startswith("fixture"))
                 else:
-                    feats = set(features.op_features(corpus.schema_k2() if k2f else schema, o.doc_text)) | set(t for t in o.tags if t.startswith("k2:"))
-                feats |= {f"cfg:{k}={v}" for k, v in cfg.items()} if cfg else set()
+                    feats = set(features.op_features(corpus.schema_k2() if k2f else schema, o.doc_text)) | set(t for t in o.tags if t != "family:K2")
+                feats |= {f"cfg:{k}={v}" for k, v in cfg.items() if k not in ("scalars", "files_to_include")} if cfg else set()
+                if cfg and "scalars" in cfg:
+                    feats.add("scalar_cfg:type+parse" if "files_to_include" in cfg else "scalar_cfg:type")
             return feats
         if rep.triage:
             rep.seen(F())
@@ -170,11 +191,11 @@ def replay(path):
     genpkg.warm()
     from graphql import parse
     doc = parse(case["query"])
-    name = next(d.name.value for d in doc.definitions if d.kind == "operation_definition")
+    name = [d.name.value for d in doc.definitions if d.kind == "operation_definition"][-1]
     c = dict(schema=corpus.SCHEMA_K, doc_text=case["query"], op_name=name, uses_var="$v" in case["query"], options=case.get("options") or {},
              checks=["c01"], bound=2, max_runs=300, tracer=case.get("tracer", "none"))
     if case.get("schema") == "K2":
-        o = next(x for x in corpus.k2_ops() if x.name == name)
+        o = next(x for x in corpus.k2_ops() + corpus.k2_matrix() if x.name == name)
         c.update(schema=corpus.SCHEMA_K2, uses_var=False, kwargs_list=corpus.k2_kwargs(o))
     st, r = pool.run_forked(opcheck.evaluate_op, c)
     print(st, json.dumps({k: v for k, v in (r or {}).items() if k in ("status", "gen_error", "problem_counts", "runs", "responses")}, default=str))
